@@ -2712,6 +2712,9 @@ namespace chaiscript {
             build_match<eval::File_AST_Node<Tracer>>(0);
           }
         } else {
+          if (m_position.has_more()) {
+            throw exception::eval_error("Unparsed input", File_Position(m_position.line, m_position.col), *m_filename);
+          }
           m_match_stack.push_back(chaiscript::make_unique<eval::AST_Node_Impl<Tracer>, eval::Noop_AST_Node<Tracer>>());
         }
 
